@@ -36,6 +36,9 @@ ASSUMPTIONS = [
 
 EXT = ["colon_fence", "deflist", "fieldlist", "strikethrough", "substitution", "attrs_inline", "attrs_block", "html_image", "html_admonition", "dollarmath"]
 
+WIKI = {"myst_url_schemes": {"wiki": {"url": "https://w.example/{{path}}", "title": "wiki {{path}}", "classes": ["wk"]}, "http": None},
+        "myst_enable_extensions": ["attrs_inline"]}
+
 OPS = {
     "include": ("```{include} inc.md\n```\n", {}),
     "include-opts": ("```{include} inc.md\n:heading-offset: 1\n:relative-images:\n```\n", {}),
@@ -43,7 +46,7 @@ OPS = {
     "rst-include": ("```{eval-rst}\n.. include:: inc.rst\n```\n", {}),
     "rst-default-role": ("```{eval-rst}\n.. default-role:: math\n\n`x`\n```\n\n{math}`y`\n", {}),
     "rst-plain-role": ("```{eval-rst}\n`x`\n```\n", {}),
-    "inv-many": ("".join(f"[](inv:#n{i}*)\n" for i in range(0, 300, 1)) + "\n[](inv:#abc) [](inv:#ABC) [](inv:#a*)\n", {}),
+    "inv-many": ("".join(f"[](inv:#n{i}*)\n" for i in range(0, 262, 1)) + "\n[](inv:#abc) [](inv:#ABC) [](inv:#a*)\n", {}),
     "inv-few": ("[](inv:#abc) [](inv:#ABC) [](inv:#AB*) [](inv:#ab*)\n", {}),
     "subst": ("---\nmyst:\n  substitutions:\n    a: '{{b}}'\n    b: '{{a}}'\n    c: '{{ 1/0 }}'\n    d: ok\n---\n{{a}} {{c}} {{d}}\n", {}),
     "subst2": ("---\nmyst:\n  substitutions:\n    a: A\n---\n{{a}} {{d}}\n", {}),
@@ -60,6 +63,8 @@ OPS = {
     "cfg-dmath": ("$$a$$ (l) and 1$x$2 $ y $\n\n- [ ] t\n", {"myst_enable_extensions": ["dollarmath", "tasklist"], "myst_dmath_allow_labels": False, "myst_dmath_allow_digits": False,
                                                               "myst_dmath_allow_space": False, "myst_enable_checkboxes": True}),
     "plain-dmath": ("$$a$$ (l) and 1$x$2 $ y $\n\n- [ ] t\n", {"myst_enable_extensions": ["dollarmath", "tasklist"]}),
+    "scheme-class-link": ("[x](wiki:X){.featured #i} and [z](wiki:Z){.other}\n", WIKI),
+    "scheme-plain-link": ("[y](wiki:Y) <wiki:A> [h](http://e)\n", WIKI),
     "tokenizer-soup": ("```{note}\n:class: \"a\\\n  b\"\n:name: |\n  x\n\nbody\n```\n", {}),
 }
 
@@ -109,8 +114,8 @@ class HistorySystem(System):
     def __init__(self, tier):
         super().__init__(tier)
         self.k = 2 if tier == "quick" else 3
-        self.ops = list(OPS)
-        self.description = (f"all histories of <= {self.k} parse calls over {len(OPS)} operations (include with and without MyST-only options, eval-rst include with and without them, "
+        self.ops = [o for o in OPS if tier != "quick" or o not in ("rst-plain-role", "headings2", "cfg-anchors", "html-img", "plain-dmath", "subst2")]
+        self.description = (f"all histories of <= {self.k} parse calls over {len(self.ops)} operations (include with and without MyST-only options, eval-rst include with and without them, "
                             "default-role, > 256 inventory wildcard patterns and case variants, cyclic / failing substitutions, front-matter overrides of set- and dict-valued options, "
                             "duplicate slugs, unclosed HTML, differing configurations), one freshly forked process per history")
 
